@@ -145,7 +145,11 @@ void djb_apply_mzd(djb_t *m, mzd_t *W, const mzd_t *V) {
   while (i > 0) {
     --i;
     if (m->srctyp[i] == source_source) {
-      _mzd_combine(mzd_row(W, m->target[i]), mzd_row_const(V, m->source[i]), W->width);
+      /* V may be a window: only the column bits of its last word belong to it */
+      word *w       = mzd_row(W, m->target[i]);
+      word const *v = mzd_row_const(V, m->source[i]);
+      if (W->width > 1) _mzd_combine(w, v, W->width - 1);
+      w[W->width - 1] ^= v[W->width - 1] & W->high_bitmask;
     } else {
       _mzd_combine(mzd_row(W, m->target[i]), mzd_row_const(W, m->source[i]), W->width);
     }
